@@ -12,4 +12,21 @@ CHECKS = {
         'text': "Per-shape proof for every degree 0..8 (the range the statement gives), all values symbolic: bezier_point/bernstein against the Bernstein sum, bezier2polynomial (all branches, both orderings) against it, split_bezier/halve_bezier against the reparameterised curve, as polynomial identities; polyroots/polyroots01: for an arbitrary root list in arbitrary order (the assumed contract of numpy.roots) every isolated root that passes the filters is returned exactly once and nothing else is returned (lists of 0..8 roots); rational_limit: result equals the quotient of the first non-vanishing Taylor coefficients, ValueError only at a pole, AssertionError only for g==0 (degrees 0..4 x 0..4).",
         'note': "Relative to the assumed contract of numpy.roots (exact roots, unspecified order) and the numpy.poly1d model; floats as reals. That a_m/b_m is the limit of f/g is a mathematical fact taken as given. Shapes beyond degree 8 (rational_limit: beyond degree 4 in the quick tier) are not claimed.",
     },
+    'C05': {
+        'text': "Postconditions on the real Path._calc_lengths/T2t/t2T/point/iscontinuous/isclosed/continuous_subpaths, proved per path shape (1..4 segments over Line/Quadratic/Cubic; every control point, every segment length and T symbolic): T2t returns for every T in [0,1] (BugException unreachable), segment k occupies (S(k), S(k)+F(k)], first such segment, t in (0,1], never divides by a zero-length segment, t2T inverts T2t both ways, point(T) is segment k at t, point(0)/point(1)/start/end, continuity predicates are exactly the endpoint coincidences, continuous subpaths are continuous, maximal and concatenate back.",
+        'note': "Per-shape (paths of 1..4 segments), not an induction over path length. Segment lengths enter through the callee contract of length(): an uninterpreted LEN >= 0 of the current control points (curved) or the closed form (lines). Floats as reals: boundary-T rounding (Path.point raising for T next to 1) is outside reach and only sampled by the bounded companion. Arc segments are not in the shape family.",
+    },
+    'C09': {
+        'text': "Line/QuadraticBezier/CubicBezier reversed, split and cropped: the documented parameter maps as polynomial identities for all control points and all t0<t1 (split through the verified callee contract of split_bezier, crop_bezier including the interior branch); Path.reversed per shape (reversed segments in reversed order).",
+        'note': "Arc.reversed/split/cropped and Path.cropped are not yet under contract (arc re-parameterisation needs the C04 uniqueness lemmas). Floats as reals. Equal length of the reversed path is not proved (length of cubic/arc is a numerical quadrature).",
+    },
+    'C10': {
+        'text': "translate/rotate/scale/transform on Line/Quadratic/Cubic commute with point evaluation for all parameters (polynomial identities, rotation through uninterpreted cos/sin of the angle); default rotation origin point(0.5); identity matrix returns the object itself; on paths (per shape) the operation acts segment-wise and every joint that coincided still coincides - in R, and bit-exactly for closed paths in the EUF back end (operators uninterpreted, equality by determinism), which is what 'coincide exactly' means.",
+        'note': "Arc segments (translate/rotate/uniform scale equivariance of the parameterisation, transform(Arc)) are not yet under contract; transform(Arc, M) raises TypeError under the installed numpy (the suite's always-failing test) and is outside the claim. Per-shape for paths (1..3 segments).",
+    },
+    'C13': {
+        'text': "Line.radialrange: tmin,tmax in [0,1], d=|point(t)-z| and for every tau in [0,1] dmin <= |point(tau)-z| <= dmax (nonlinear real arithmetic, all inputs). bezier_radialrange (Quadratic/Cubic): the polynomial handed to the root finder is d/dt|B(t)-z|^2, the result is the best candidate among {0,1} and the returned roots with its distance, for every number of roots. Path.radialrange/closest/farthest: extreme over all segments with the index of the segment attaining it (per shape).",
+        'note': "Quadratic/Cubic global optimality is relative to polyroots01 returning every critical point in [0,1] (numpy.roots exact; C19 proves no isolated root is lost) and to the extreme-value lemma, both assumed; the bounded companion compares with dense sampling. Paths per shape (1..3 segments); Arc.radialrange is not implemented in the library.",
+    },
 }
+
